@@ -464,15 +464,24 @@ def check_getter(ctx, md, cname, g, expr, list_roles):
     res = explore(run)
     inst = "%s.%s" % (cname, g)
     n_ok = n_match = 0
-    for asg, r in res:
+    paths = []
+    for asg, r in list.__iter__(res):
         if isinstance(r, Raised):
             continue
-        n_ok += 1
         v, a = r
         exp = expected(expr, item, a, list_roles)
+        paths.append((asg, v, exp, strip_lin(prov(v, opaque=[])) == strip_lin(prov(exp))))
+    # a verdict that is the same on every abstract path does not depend on the unevaluated conditions the paths went through
+    uniform = len({ok_ for a_, v_, e_, ok_ in paths}) <= 1 and len({tuple(show_prov(strip_lin(prov(v_, opaque=[])))) for a_, v_, e_, ok_ in paths}) <= 1
+    for asg, v, exp, ok_ in paths:
+        n_ok += 1
+        if hasattr(ctx, "path"):
+            ctx.path(None if uniform else asg)
         c = compare(ctx, "getter", inst, f, "%s.%s" % (cname, g), v, exp, "%s.%s()" % (cname, g), optional=expr[0] == "OPT")
         if c:
             n_match += 1
+    if hasattr(ctx, "path"):
+        ctx.path(None)
     ctx.require(n_ok > 0, "%s.%s: no abstract path returns" % (cname, g))
     if expr[0] == "OPT":
         ctx.check("getter", inst, n_match > 0, f, "%s.%s" % (cname, g),
